@@ -78,7 +78,9 @@ class Check(object):
         self.known_keys = [e["key"] for e in self.opened]
         self.pool = None
         self.t0 = time.time()
-        self.wall_cap = float(os.environ.get("AMOSIM_WALL_S", "0") or 0)
+        # wall-clock cap on the exploration phase (0 = none): the thorough tier stops scheduling
+        # new worlds after 25 minutes unless told otherwise, and says so in its evidence
+        self.wall_cap = float(os.environ.get("AMOSIM_WALL_S", "1500" if tier == "thorough" else "0") or 0)
         self.messages = []
         self.phases = []
         self._pt = self.t0
@@ -242,6 +244,16 @@ class Check(object):
     def run(self):
         eng = self.engine
         specs = [self.finish_spec(s) for s in eng.plan(self.prop, self.tier, self.seed)]
+        if self.wall_cap:
+            # a capped run explores a prefix of the plan: spread the kinds of worlds evenly over it
+            kinds = collections.Counter(s.get("kind") for s in specs)
+            seen = collections.Counter()
+            pos = []
+            for s in specs:
+                k = s.get("kind")
+                pos.append((seen[k] + 0.5) / kinds[k])
+                seen[k] += 1
+            specs = [s for _, _, s in sorted(zip(pos, range(len(specs)), specs), key=lambda x: (x[0], x[1]))]
         workers = int(os.environ.get("AMOSIM_WORKERS", "16"))
         self.pool = Pool(self.engine_name, workers=workers)
         try:
@@ -267,7 +279,7 @@ class Check(object):
         # wall-clock cap: schedule in slices so that we can stop early
         results = []
         partial = False
-        slice_n = max(64, len(specs) // 20)
+        slice_n = max(int(os.environ.get("AMOSIM_WORKERS", "16")), len(specs) // 20)
         pos = 0
         while pos < len(specs):
             if self.wall_cap and time.time() - self.t0 > self.wall_cap:
